@@ -3,6 +3,8 @@
 package cl
 
 import (
+	"strings"
+
 	"github.com/ohler55/slip"
 )
 
@@ -49,7 +51,8 @@ func (f *ReturnFrom) Call(s *slip.Scope, args slip.List, depth int) slip.Object 
 	case nil:
 		// leave as nil
 	case slip.Symbol:
-		rr.Tag = ta
+		// Symbols are not case sensitive, the block might be spelled differently.
+		rr.Tag = slip.Symbol(strings.ToLower(string(ta)))
 	default:
 		slip.TypePanic(s, depth, "name", ta, "symbol", "nil")
 	}
